@@ -3,7 +3,7 @@
    bounded computation for N <= 12 is kept).  Generation: REFUTED for every odd k and every N; PROVED for every even k and every N
    (Theory/ExtendT.v: one more qubit at a time; Theory/LeftFullT.v: the left set on an even number of qubits);
    the older computation with the verified closure for N <= 6 is kept. *)
-From PauLie Require Import Pauli Sym ClSym InvarT Compiler CompilerT ClosureN UniversalT ExtendT LeftFullT.
+From PauLie Require Import Pauli Sym ClSym InvarT Compiler CompilerT ClosureN UniversalT ExtendT LeftFullT MinGenT.
 
 Theorem C07_size : forall N k U, universal N k = Ok U ->
   length U = (2 * N + 1)%nat /\ forall g, In g U -> length g = N.
@@ -36,6 +36,12 @@ Theorem C07_one_more_qubit : forall n (H : pstr -> Prop) w, (2 <= n)%nat -> (for
   forall p, length p = S n -> p <> identity (S n) -> ClL (Gext H w) p.
 Proof. exact extend_full. Qed.
 Print Assumptions C07_one_more_qubit.
+
+(* 2N+1 is the least possible size: no list of fewer strings generates all non-identity strings on N >= 2 qubits *)
+Theorem C07_minimal_size : forall N (G : list pstr), (2 <= N)%nat -> (forall g, In g G -> length g = N) ->
+  (forall p, length p = N -> p <> identity N -> ClL (fun g => In g G) p) -> (2 * N + 1 <= length G)%nat.
+Proof. exact min_generators_strs. Qed.
+Print Assumptions C07_minimal_size.
 
 Theorem C07_even_k_bounded : forall N k, (3 <= N <= 6)%nat -> (2 <= k < N)%nat -> Nat.even k = true ->
   closure_card N (uni N k) = Some (Nat.pow 4 N - 1)%nat.
